@@ -58,10 +58,22 @@ var ghostConsts = map[string]int64{
 func (fv *FuncVC) cborBuild() bool { return strings.Contains(fv.P.Tags, "binary_log") }
 
 func (fv *FuncVC) streamPrelude() []string {
-	if fv.Mode != ModeInt {
-		return nil
+	ghostOnly := []string{
+		"(define-fun aftervalue ((m Int)) Int (ite (= m 7) 3 (ite (or (= m 8) (= m 10)) 9 (ite (= m 1) 14 (ite (= m 16) 17 0)))))",
+		"(define-fun afterstr ((m Int)) Int (ite (= m 5) 6 (ite (= m 11) 3 (ite (= m 12) 9 (ite (= m 13) 14 (ite (= m 18) 17 0))))))",
+		"(define-fun openstr ((m Int)) Int (ite (or (= m 2) (= m 4)) 5 (ite (= m 7) 11 (ite (or (= m 8) (= m 10)) 12 (ite (= m 1) 13 (ite (= m 16) 18 0))))))",
+		"(define-fun valuepos ((m Int)) Bool (or (= m 7) (= m 8) (= m 10) (= m 1) (= m 16)))",
+		"(define-fun closemode ((s Int)) Int (ite (= (mod s 4) 0) 3 (ite (= (mod s 4) 1) 9 (ite (= (mod s 4) 2) 17 14))))",
+		"(define-fun pushstk ((m Int) (s Int)) Int (+ (* 4 s) (ite (= m 7) 0 (ite (= m 16) 2 (ite (= m 1) 3 1)))))",
 	}
-	return []string{
+	if fv.cborBuild() {
+		// CBOR element lists have no separators: after the first element the list is in DONE / LIST_NEXT
+		ghostOnly[len(ghostOnly)-1] = "(define-fun pushstk ((m Int) (s Int)) Int (+ (* 4 s) (ite (= m 7) 0 (ite (or (= m 16) (= m 14) (= m 17)) 2 (ite (= m 1) 3 1)))))"
+	}
+	if fv.Mode != ModeInt {
+		return ghostOnly
+	}
+	return append(ghostOnly, []string{
 		"(define-fun ishex ((b Int)) Bool (or (and (<= 48 b) (<= b 57)) (and (<= 97 b) (<= b 102)) (and (<= 65 b) (<= b 70))))",
 		"(define-fun iscont ((b Int)) Bool (and (<= 128 b) (<= b 191)))",
 		"(define-fun plainbyte ((b Int)) Bool (and (<= 32 b) (< b 128) (not (= b 34)) (not (= b 92))))",
@@ -76,11 +88,6 @@ func (fv *FuncVC) streamPrelude() []string {
   (ite (= l 11) (ite (and (<= 128 b) (<= b 159)) 7 99)
   (ite (= l 12) (ite (and (<= 144 b) (<= b 191)) 8 99)
   (ite (= l 13) (ite (and (<= 128 b) (<= b 143)) 8 99) 99)))))))))))`,
-		"(define-fun aftervalue ((m Int)) Int (ite (= m 7) 3 (ite (or (= m 8) (= m 10)) 9 (ite (= m 1) 14 (ite (= m 16) 17 0)))))",
-		"(define-fun afterstr ((m Int)) Int (ite (= m 5) 6 (ite (= m 11) 3 (ite (= m 12) 9 (ite (= m 13) 14 (ite (= m 18) 17 0))))))",
-		"(define-fun openstr ((m Int)) Int (ite (or (= m 2) (= m 4)) 5 (ite (= m 7) 11 (ite (or (= m 8) (= m 10)) 12 (ite (= m 1) 13 (ite (= m 16) 18 0))))))",
-		"(define-fun valuepos ((m Int)) Bool (or (= m 7) (= m 8) (= m 10) (= m 1) (= m 16)))",
-		"(define-fun closemode ((s Int)) Int (ite (= (mod s 4) 0) 3 (ite (= (mod s 4) 1) 9 (ite (= (mod s 4) 2) 17 14))))",
 		`(define-fun jlex ((m Int) (s Int) (l Int) (b Int)) Int
   (ite (= l 0) (ite (and (= b 34) (not (= (openstr m) 0))) 1 0) (lexstep l b)))`,
 		`(define-fun jmode ((m Int) (s Int) (l Int) (b Int)) Int
@@ -99,7 +106,7 @@ func (fv *FuncVC) streamPrelude() []string {
   (ite (or (= b 125) (= b 93)) (div s 4) s))))`,
 		fmt.Sprintf("(declare-fun cleanrun ((Array Int Int) Int Int) Bool)"),
 		fmt.Sprintf("(declare-fun validrune ((Array Int Int) Int Int) Bool)"),
-	}
+	}...)
 }
 
 func (fv *FuncVC) ghostTop(name string) string {
@@ -169,7 +176,12 @@ func (fv *FuncVC) doStreamAppend(r, d, x Term, xv ssa.Value, pos token.Pos) {
 	whole := smtAnd(app("=", g3(d), "0"), app("=", g3(x), "0"), app("=", g1(x), fmt.Sprint(mDONE)), app("=", g2(x), "1"))
 	list := smtAnd(app("=", g3(d), "0"), app("=", g3(x), "0"), app("=", g1(x), fmt.Sprint(mLISTNEXT)), app("=", g2(x), "1"), app("=", g1(d), fmt.Sprint(mARRFIRST)))
 	members := smtAnd(app("=", g3(d), "0"), app("=", g3(x), "0"), app("=", g1(x), fmt.Sprint(mMEMBERS)), app("=", g2(x), "7"),
-		smtOr(app("=", g1(d), fmt.Sprint(mOBJFIRST)), app("=", g1(d), fmt.Sprint(mOBJCOMMA))))
+		smtOr(app("=", g1(d), fmt.Sprint(mOBJFIRST)), app("=", g1(d), fmt.Sprint(mOBJCOMMA)), func() string {
+			if fv.cborBuild() {
+				return app("=", g1(d), fmt.Sprint(mOBJNEXT)) // CBOR maps have no separators
+			}
+			return "false"
+		}()))
 	vm := "(aftervalue " + g1(d) + ")"
 	if fv.cborBuild() {
 		vm = fv.cborAfterValue(g1(d))
